@@ -450,6 +450,20 @@ class Interp:
         callterm = ('call', cid, vals)
         if term_depth(callterm) > 60:
             callterm = TOP
+        if result is None and not info['local'] and vals and info['name'] in ('into_mut', 'get_mut', 'insert'):
+            # the Entry API spelled out: OccupiedEntry::{into_mut, get_mut} and VacantEntry::insert all hand out a mutable
+            # reference to the element `container[key]`; both arms of `match map.entry(k)` therefore denote the same
+            # location, written here as the canonical `entry(k).or_default()` element so that the arms join to one reference
+            e0 = vals[0]
+            while e0[0] in ('lv', 'at'):
+                e0 = e0[3] if e0[0] == 'lv' else e0[2]
+            occ = info['name'] in ('into_mut', 'get_mut') and len(vals) == 1 and e0[0] == 'field' and e0[2] == 'Occupied.0'
+            vac = info['name'] == 'insert' and len(vals) == 2 and e0[0] == 'field' and e0[2] == 'Vacant.0'
+            if (occ or vac) and e0[1][0] == 'call' and cinfo(e0[1][1])['name'] == 'entry':
+                oc = callee_id({'def': 'verif::entry::or_default', 'uid': 'verif::entry::or_default', 'name': 'or_default', 'trait': None,
+                                'self_ty': None, 'local': False, 'substs': [], 'resolved': None, 'resolved_uid': None, 'resolved_self': None})
+                result = ('call', oc, (e0[1],))
+                mutate = False
         if result is None:
             result = callterm
         if mutate:
@@ -553,6 +567,10 @@ class Interp:
         if b[0] == 'obj' and a[0] != 'obj' and b[1] == a:
             return self.join_terms(('obj', a, ()), b)
         if a[0] == 'ref' or b[0] == 'ref':
+            # a reference-typed value X returned by a call and a reborrow `&mut *X` are the same reference
+            for x, y in ((a, b), (b, a)):
+                if x[0] == 'ref' and y[0] != 'ref' and x[1] == (('O', y), ()):
+                    return x
             return TOP
         return mk_phi([a, b])
 
